@@ -620,6 +620,22 @@ impl<'a> Analysis<'a> {
         (cross, same, unvisited)
     }
 
+    /// x happens-before-or-with y at the granularity the model has: different script operations by
+    /// static happens-before; inside one operation, inner operations run in order and the
+    /// operation's own closing actions (a poll's guard drop and span finish) come last
+    pub fn ref_before_eq(&self, x: OpRef, y: OpRef) -> bool {
+        let (ox, oy) = (outer(x), outer(y));
+        if ox != oy {
+            return self.hb.before(ox, oy);
+        }
+        let (kx, ky) = (x % 16, y % 16);
+        match (kx, ky) {
+            (_, 0) => true,       // y is the operation's own (final) action
+            (0, _) => false,      // x is the final action, y an inner step before it
+            (a, b) => a <= b,
+        }
+    }
+
     pub fn op_executed(&self, o: usize) -> bool {
         self.hist.ops.get(o).map(|x| x.executed).unwrap_or(false)
     }
